@@ -1,0 +1,89 @@
+/**
+ * Copyright 2025 CloudWeGo Authors.
+ *
+ * Licensed under the Apache License, Version 2.0 (the "License");
+ * you may not use this file except in compliance with the License.
+ * You may obtain a copy of the License at
+ *
+ *     http://www.apache.org/licenses/LICENSE-2.0
+ *
+ * Unless required by applicable law or agreed to in writing, software
+ * distributed under the License is distributed on an "AS IS" BASIS,
+ * WITHOUT WARRANTIES OR CONDITIONS OF ANY KIND, either express or implied.
+ * See the License for the specific language governing permissions and
+ * limitations under the License.
+ */
+
+package annotation
+
+import (
+	"context"
+	"encoding/hex"
+	"strings"
+	"testing"
+
+	"github.com/cloudwego/dynamicgo/thrift"
+	"github.com/stretchr/testify/require"
+)
+
+func TestAPIJSConvWrite(t *testing.T) {
+	idl := `namespace go test
+struct R {
+  1: i64 l (api.js_conv = "")
+  2: string s (api.js_conv = "")
+  3: double d (api.js_conv = "")
+  4: i32 i = 7 (api.js_conv = "")
+}
+service Svc {
+  void A(1: R req)
+}
+`
+	svc, err := thrift.Options{UseDefaultValue: true}.NewDescritorFromContent(context.Background(), "a.thrift", idl, nil, false)
+	require.NoError(t, err)
+	fn, err := svc.LookupFunctionByMethod("A")
+	require.NoError(t, err)
+	st := fn.Request().Struct().FieldById(1).Type().Struct()
+
+	cases := []struct {
+		field string
+		in    string
+		out   string // hex, "" means error
+	}{
+		{"l", `1`, "0000000000000001"},
+		{"l", `"-1"`, "ffffffffffffffff"},
+		{"l", `""`, "0000000000000000"},
+		{"l", `1e2`, "0000000000000064"},
+		{"l", `"1.5"`, "0000000000000001"},
+		{"l", `"01"`, ""},
+		{"l", `"+1"`, ""},
+		{"l", `" 1"`, ""},
+		{"l", `"1x"`, ""},
+		{"l", `null`, ""},
+		{"l", `true`, ""},
+		{"l", `[1]`, ""},
+		{"i", `""`, "00000007"},
+		{"i", `"12"`, "0000000c"},
+		{"d", `"1.5"`, "3ff8000000000000"},
+		{"d", `-0`, "0000000000000000"},
+		{"d", `"-0.0"`, "8000000000000000"},
+		{"d", `"Inf"`, ""},
+		{"d", `"0x10"`, ""},
+		{"s", `"a@/b@u00e9@ud83d@ude00"`, "00000009612f62c3a9f09f9880"},
+		{"s", `"@x"`, ""},
+		{"s", `12.50`, "0000000531322e3530"},
+		{"s", `null`, ""},
+		{"s", `{}`, ""},
+	}
+	for _, c := range cases {
+		f := st.FieldByKey(c.field)
+		p := thrift.BinaryProtocol{}
+		in := []byte(strings.ReplaceAll(c.in, "@", "\\"))
+		err := f.ValueMapping().Write(context.Background(), &p, f, in)
+		if c.out == "" {
+			require.Error(t, err, string(in))
+		} else {
+			require.NoError(t, err, string(in))
+			require.Equal(t, c.out, hex.EncodeToString(p.Buf), string(in))
+		}
+	}
+}
